@@ -120,24 +120,6 @@ theorem smallestSuffixGo_spec (m : Str → Bool) (s : Str) (i : Nat) :
         · subst hti; exact hf
         · exact h1 t (by omega)
 
-/-! ## byte length vs character count -/
-
-theorem utf8Len_pos (c : Char) : 1 ≤ utf8Len c := by
-  unfold utf8Len; split <;> (try split) <;> (try split) <;> omega
-
-theorem length_le_byteLen (s : Str) : s.length ≤ byteLen s := by
-  induction s with
-  | nil => simp [byteLen]
-  | cons c cs ih => have := utf8Len_pos c; simp only [byteLen, List.length_cons]; omega
-
-theorem byteLen_ascii (s : Str) (h : ∀ c ∈ s, c.toNat < 0x80) : byteLen s = s.length := by
-  induction s with
-  | nil => simp [byteLen]
-  | cons c cs ih =>
-    have hc : c.toNat < 0x80 := h c (by simp)
-    have := ih (fun d hd => h d (by simp [hd]))
-    simp only [byteLen, utf8Len, hc, ↓reduceIte, List.length_cons]; omega
-
 /-! ## string slicing -/
 
 theorem sliceFields_single (s : Str) (i n : Nat) (hi : i ≤ s.length) :
